@@ -384,7 +384,8 @@ def inject_error(ctx, rng, case, error: str):
         i = rng.randrange(len(case["mds"]))
         md = dict(case["mds"][i])
         if error == "unknown_key":
-            md[rng.choice(["link_libraries" if b != "atlas" else "element_pointer", "includes", "bogus", "Name"])] = ["x"]
+            k = rng.choice(["link_libraries" if b != "atlas" else "element_pointer", "includes", "bogus", "Name"])
+            md[k] = (b == "atlas") if k == "element_pointer" else ["x"]
         elif error == "missing_key":
             k = rng.choice(["name", "include_files", "container_type", "contains_collection"])
             md.pop(k, None)
@@ -707,8 +708,8 @@ def systematic_cases(ctx) -> List[Dict[str, Any]]:
         for n, coll in names:
             it = {"kind": "selmethod" if coll else "single", "use": {"name": n, "args": [{"s": "bank_" + n}]}, "method": "pt"}
             res.append({"backend": b, "mds": [], "where": [], "main": "tuple", "items": [it]})
-        for (n1, c1), (n2, c2) in itertools.product(names, repeat=2):
-            if ctx.tier == "quick" and b == "atlas" and (hash((n1, n2)) % 3):
+        for i, ((n1, c1), (n2, c2)) in enumerate(itertools.product(names, repeat=2)):
+            if ctx.tier == "quick" and b == "atlas" and (i + ctx.seed) % 3:
                 continue
             its = [{"kind": "count" if c else "single", "use": {"name": n, "args": [{"s": bank}]}, "method": "pt"} for (n, c, bank) in ((n1, c1, "b1"), (n2, c2, "b2"))]
             res.append({"backend": b, "mds": [], "where": [], "main": "tuple", "items": its})
